@@ -56,6 +56,13 @@ def _cases(draw):
         s["attribute::plain"] = g.adv()
     if g.p("_", 0.7):
         s["version"] = g.adv()
+    if g.p("_", 0.06):
+        # documented switch: cells are taken as typed -- no trimming, no quote straightening, and "${" that is not a reference is text
+        s["clean_text_values"] = g.pick(["no", "false"])
+        for n, _ in model.walk(form["nodes"]):
+            for k in list(n["c"]):
+                if k.split("::")[0] in ("constraint_message", "required_message", "hint") and "${" not in n["c"][k] and g.p("_", 0.5):
+                    n["c"][k] = n["c"][k] + g.pick([" ${ 5", " a ${b", "{${", " $ {x}"])
     return {"form": form}
 
 
@@ -103,6 +110,18 @@ def attr_norm(s):
 
 
 def evaluate(case) -> Outcome:
+    raw_mode = case["form"].get("settings", {}).get("clean_text_values") in expect.NO
+    common.CLEAN[0] = not raw_mode
+    try:
+        out = _evaluate(case)
+    finally:
+        common.CLEAN[0] = True
+    if raw_mode:
+        out.label("clean_text_values=no")
+    return out
+
+
+def _evaluate(case) -> Outcome:
     out = Outcome()
     form = case["form"]
     status, res = common.run_form(form)
@@ -210,7 +229,7 @@ def evaluate(case) -> Outcome:
             out.checked("C06.roundtrip")
             special = special or bool(SPECIAL.search(s[key]))
             want = s[key] if key == "form_title" else attr_norm(s[key])
-            if got is None or common.smart(got) != common.smart(want):
+            if got is None or common.smart_always(got) != common.smart_always(want):
                 out.fail("C06.roundtrip", lab, f"setting {key}: {got!r}, expected {want!r}")
     # (2) skeleton invariance
     s2, r2 = common.run_form(benign(form))
